@@ -1,6 +1,6 @@
 ------------------------------- MODULE AELexer -------------------------------
 (* C06 IMPLEMENTATION-SHAPED model: the context machine of lexer.scan
-   (/repo/internal/compiler/lexer.go, the templateSyntax branch, file format HTML) transcribed
+   (/repo/internal/compiler/lexer.go, the templateSyntax branch; file formats HTML, JS, CSS, JSON) transcribed
    branch by branch.  lexer.scan decides with look-ahead (isEndScript, the CDATA prefix, src[p+1]
    after `\`, `/`, `*`) and scans tag and attribute names in inner loops (scanTag, scanAttribute);
    here the same decisions are taken one byte at a time with explicit scanning sub-states `sub`, so
@@ -77,7 +77,10 @@ LTrimR(s, j) == IF j >= 1 /\ s[j] \in {32, 9, 10, 11, 12, 13} THEN LTrimR(s, j -
 LTrimFold(s) == LET i == LTrimL(s, 1) j == LTrimR(s, Len(s)) IN
                 IF i > j THEN <<>> ELSE [k \in 1..(j - i + 1) |-> LLower(s[i + k - 1])]
 
-L0 == [ctx |-> "HTML", q |-> 0, url |-> 0, jsc |-> 0, tn |-> <<>>, tctx |-> "HTML", an |-> <<>>, tv |-> <<>>, sub |-> "", k |-> 0]
+\* html = isHTML (the file is an HTML file: </script> and </style> are looked for); the file context is
+\* "HTML" then, else the context of the file format (scanTemplate: ctx = ast.Context(format))
+L0 == [ctx |-> "HTML", q |-> 0, url |-> 0, jsc |-> 0, tn |-> <<>>, tctx |-> "HTML", an |-> <<>>, tv |-> <<>>, sub |-> "", k |-> 0, html |-> TRUE]
+L0F(fmt) == IF fmt = "HTML" THEN L0 ELSE [L0 EXCEPT !.ctx = fmt, !.html = FALSE]
 
 \* end of an attribute value (case ContextQuotedAttr, ContextUnquotedAttr of scan)
 LEndAttr(l) ==
@@ -153,23 +156,23 @@ LDo(l, c) ==
            [] LASCIISpace(c) -> LEndAttr(l)
            [] OTHER -> LAccValue(l, c)
     [] l.ctx = "CSS" ->
-         CASE c = 60 -> [l EXCEPT !.sub = "et", !.k = 1]
+         CASE c = 60 /\ l.html -> [l EXCEPT !.sub = "et", !.k = 1]
            [] c = 34 \/ c = 39 -> [l EXCEPT !.ctx = "CSSString", !.q = c]
            [] OTHER -> l
     [] l.ctx \in {"CSSString", "JSString", "JSONString"} ->
          CASE c = 92 -> [l EXCEPT !.sub = "esc"]
            [] c = l.q -> [l EXCEPT !.ctx = CASE l.ctx = "CSSString" -> "CSS" [] l.ctx = "JSString" -> "JS" [] OTHER -> "JSON", !.q = 0]
-           [] c = 60 -> [l EXCEPT !.sub = "et", !.k = 1]
+           [] c = 60 /\ l.html -> [l EXCEPT !.sub = "et", !.k = 1]
            [] OTHER -> l
     [] l.ctx = "JS" ->
-         CASE c = 60 -> [l EXCEPT !.sub = "et", !.k = 1]
+         CASE c = 60 /\ l.html -> [l EXCEPT !.sub = "et", !.k = 1]
            [] l.jsc = 1 -> IF c = 10 \/ c = 13 THEN [l EXCEPT !.jsc = 0] ELSE l
            [] l.jsc = 2 -> IF c = 42 THEN [l EXCEPT !.sub = "bcs"] ELSE l
            [] c = 47 -> [l EXCEPT !.sub = "jsl"]
            [] c = 34 \/ c = 39 -> [l EXCEPT !.ctx = "JSString", !.q = c]
            [] OTHER -> l
     [] l.ctx = "JSON" ->
-         CASE c = 60 -> [l EXCEPT !.sub = "et", !.k = 1]
+         CASE c = 60 /\ l.html -> [l EXCEPT !.sub = "et", !.k = 1]
            [] c = 34 -> [l EXCEPT !.ctx = "JSONString", !.q = 34]
            [] OTHER -> l
     [] OTHER -> l
